@@ -14,8 +14,9 @@ sys.path.insert(0, VERIF)
 
 
 def main():
-    write = '--write' in sys.argv
-    args = [x for x in sys.argv[1:] if x != '--write']
+    write = '--write' in sys.argv or '--merge' in sys.argv
+    merge = '--merge' in sys.argv        # keep the lower of the stored and the newly measured floor (several sweeps, one table)
+    args = [x for x in sys.argv[1:] if x not in ('--write', '--merge')]
     tier = args[0]
     seeds = [int(s) for s in args[1].split(',')]
     props = args[2:] or ['C%02d' % i for i in range(1, 21)]
@@ -63,10 +64,17 @@ def main():
         sys.stdout.flush()
         if write and not alarms:
             keys = set(keys_from.get('counters', {})) | set(floors.get('counters', {}))
-            table.setdefault(prop, {})[tier] = {
+            new = {
                 'conclusive': max(1, mins.get('conclusive', 0) // 3), 'distinct_nontrivial': max(1, mins.get('distinct_nontrivial', 0) // 3),
                 'counters': {k: max(1, mins.get(k, 0) // 3) for k in sorted(keys) if mins.get(k, 0) > 0},
                 'measured_on_seeds': seeds}
+            old = table.get(prop, {}).get(tier)
+            if merge and old:
+                new['conclusive'] = min(new['conclusive'], old.get('conclusive', new['conclusive']))
+                new['distinct_nontrivial'] = min(new['distinct_nontrivial'], old.get('distinct_nontrivial', new['distinct_nontrivial']))
+                new['counters'] = {k: min(v, old.get('counters', {}).get(k, v)) for k, v in new['counters'].items()}
+                new['measured_on_seeds'] = sorted(set(old.get('measured_on_seeds', [])) | set(seeds))
+            table.setdefault(prop, {})[tier] = new
             json.dump(table, open(fj, 'w'), indent=1, sort_keys=True)
 
 
